@@ -104,6 +104,23 @@ def property_failures(prog, o):
                 elif e[0] == "E" and seen_u:
                     out.append(("after-panic", "handler %s entered after a recovered panic" % e[1:]))
                     break
+        # wildcard middleware: a request path outside the prefix is answered 404 and nothing later runs
+        path = prog["path"]
+        for i, h in enumerate(prog["hs"]):
+            if i not in enters:
+                break
+            if h.startswith("WC:"):
+                pfx = h[3:] or "/"
+                if not pfx.startswith("/"):
+                    pfx = "/" + pfx
+                if pfx != "/" and not pfx.endswith("/"):
+                    pfx += "/"
+                if path.startswith(pfx):
+                    path = path[len(pfx):]
+                else:
+                    if any(j > i for j in enters):
+                        out.append(("after-404", "wildcard %r does not match %r but handler %d still ran" % (h, prog["path"], i + 1)))
+                    break
     except (KeyError, ValueError, IndexError) as ex:
         out.append(("unparsable", "cannot evaluate the property on %r: %r" % (o, ex)))
     return out
@@ -130,14 +147,18 @@ def run_stream(args, run, stats):
     return mism
 
 
-def classify(run, line):
+def classify(run, line, only=None):
+    """only='prop': report only if the property fails on the implementation; 'corr': only otherwise."""
     t = line.split("\t")
     if len(t) < 5 or t[1] == "parse":
-        run.violation("corr-parse", {"driver_line": line[:2000]}, "unparsable harness/driver line", True)
-        return
+        if only != "prop":
+            run.violation("corr-parse", {"driver_line": line[:2000]}, "unparsable harness/driver line", True)
+        return only != "prop"
     fields, ps, impl, model = t[1], t[2], t[3], t[4]
     prog = parse_prog(ps)
     fails = property_failures(prog, parse_obs(impl))
+    if (only == "prop" and not fails) or (only == "corr" and fails):
+        return False
     payload = {"prog": ps, "impl": impl, "model": model, "differs_in": fields, "how": HOW}
     if fails:
         kinds = sorted(set(k for k, _ in fails))
@@ -153,6 +174,7 @@ def classify(run, line):
                                             "C15_* no longer tied to the code"),
                       "implementation and model disagree on {%s} but the property holds on the observed run  [%s]" % (fields, ps),
                       no_input_found=True)
+    return True
 
 
 def run_corpus_lines(lines):
@@ -235,9 +257,15 @@ def run(run):
         for k, v in d.items():
             stats[k] = stats.get(k, 0) + v
     # shortest programs first: the smallest disagreeing inputs become the replays
+    # (a failing input for the property is worth more than a bare disagreement, so those are reported first)
     mism.sort(key=lambda l: len(l.split("\t")[2]) if l.count("\t") >= 2 else 0)
-    for line in mism[:60]:
-        classify(run, line)
+    for only in ("prop", "corr"):
+        k = 0
+        for line in mism[:20000]:
+            if classify(run, line, only):
+                k += 1
+                if k >= 30:
+                    break
     samples = []
     rc, out = C.sh([os.path.join(C.BIN, "c15"), "-mode", "random", "-n", "5", "-seed", str(run.seed + 7)])
     for l in out.splitlines()[:5]:
